@@ -206,6 +206,21 @@ def fam_plan(chk, R, tier):
             inputs.append(((o1, o2), (n1, n2), rng.choice([1, 8]), rng.choice([1, 4]), rng.choice([1, 16, 64]), rng.choice([2, 3, 100]), (sum(o1), sum(o2))))
     for _ in range(12000 if tier == "thorough" else 1500):
         inputs.append(gen_plan_case(rng))
+    # byte limits that are NOT a multiple of the item size (the element budget limit/itemsize is fractional; a merge that lands
+    # on the next integer is over budget): thin rows -> thin columns, limit a little below itemsize * (rows merged * row width)
+    import random as _random
+    drng = _random.Random(f"C15-fractional-budget-{chk.seed}")
+    for _ in range(3000 if tier == "thorough" else 400):
+        n, m = drng.choice([8, 12, 16, 24]), drng.choice([4, 6, 8, 16])
+        parts = drng.choice([1, 2, 4]) if m % 4 == 0 else drng.choice([1, 2])
+        old = ((1,) * n, (m // parts,) * parts)
+        new = ((n,), (1,) * m)
+        if drng.random() < 0.3:
+            old, new = new, old
+        itemsize = drng.choice([2, 4, 8])
+        g = drng.choice([2, 3, 4, 6, 8])
+        bsl = itemsize * g * (m // parts) - drng.randint(1, itemsize - 1)
+        inputs.append((old, new, itemsize, drng.choice([1, 2, 4, 4]), bsl, drng.choice([3, 8, 100]), (n, m)))
     cases, kept = [], []
     for (old, new, itemsize, threshold, bsl, degree, shape) in inputs:
         plan, err, orders, oracle = run_plan(R, old, new, itemsize, threshold, bsl, degree)
